@@ -140,12 +140,13 @@ func (sh *SessionHandler) rpcFormContract(s *session, log *zap.Logger) (contract
 		err := ErrTxnMissingContract
 		s.t.WriteResponseErr(err)
 		return contracts.Usage{}, err
-	} else if req.RenterKey.Algorithm != types.SpecifierEd25519 {
-		err := errors.New("unsupported renter key algorithm")
+	}
+	renterPub, err := convertToPublicKey(req.RenterKey)
+	if err != nil {
+		err = fmt.Errorf("failed to convert renter key: %w", err)
 		s.t.WriteResponseErr(err)
 		return contracts.Usage{}, err
 	}
-	renterPub := *(*types.PublicKey)(req.RenterKey.Key)
 	// get the host's public key, current block height, and settings
 	hostPub := sh.privateKey.PublicKey()
 
